@@ -286,7 +286,14 @@ def g9(ctx: Ctx):
                         return len(next(iter(vals_)))
             return None
 
+        # module-level helpers whose every call has been inlined by the normalised view are dead text
+        dead_ids: Set[int] = set()
+        for f_ in m.tree.body:
+            if isinstance(f_, ast.FunctionDef) and not any(isinstance(x, ast.Name) and x.id == f_.name and isinstance(x.ctx, ast.Load) for x in ast.walk(m.tree)):
+                dead_ids |= {id(x) for x in ast.walk(f_)}
         for n in ast.walk(m.tree):
+            if id(n) in dead_ids:
+                continue
             if isinstance(n, ast.Subscript) and isinstance(n.slice, ast.Slice) and n.slice.lower is not None and _slice_start(n) in (3, 4, 5):
                 src = unparse(n.value)
                 if src.endswith("name()") or isinstance(n.value, ast.Name):
